@@ -279,7 +279,7 @@ package encoding
 //@ spec embedsOK(s []embedded) bool = forall(k, 0, len(s), dynType(s[k].Type) != 0)
 
 //@ func encoding.collectEmbedded
-//@   property C05 C06 C15
+//@   property C05 C06 C15 C09 C12
 //@   requires typeField != nil && embeds != nil && dynType(typeField.Type) != 0 && embedsOK(*embeds)
 //@   ensures[embeds] embedsOK(*embeds)
 //@   ensures[arr] refOf(*embeds) == refOf(old(*embeds)) || fresh(*embeds)
@@ -288,7 +288,7 @@ package encoding
 //@   modifies *embeds, elems(*embeds)
 
 //@ func encoding.doPopulateStructFromCBOR
-//@   property C05 C06 C15
+//@   property C05 C06 C15 C09
 //@   requires rawMap != nil && dm != nil && dynType(structType) != 0 && noDupInts(rawMap.Keys)
 //@   ensures[nodup] noDupInts(rawMap.Keys)
 //@   ensures[keys-array] refOf(rawMap.Keys) == refOf(old(rawMap.Keys))
@@ -327,7 +327,7 @@ package encoding
 //@   loop 2 invariant refOf(rawMap.Keys) == refOf(old(rawMap.Keys))
 
 //@ func encoding.doPopulateStructFromJSON
-//@   property C05 C06 C15
+//@   property C05 C06 C15 C12
 //@   requires rawMap != nil && dynType(structType) != 0 && noDupStrings(rawMap.Keys)
 //@   ensures[nodup] noDupStrings(rawMap.Keys)
 //@   ensures[keys-array] refOf(rawMap.Keys) == refOf(old(rawMap.Keys))
@@ -368,7 +368,7 @@ package encoding
 // Serialising side: fields are added to the ordered map (Add refuses a key that is already there, so
 // the no-duplicate invariant is kept); the keys array is the old one or one allocated here.
 //@ func encoding.doSerializeStructToCBOR
-//@   property C05 C06 C15
+//@   property C05 C06 C15 C09
 //@   requires rawMap != nil && em != nil && dynType(structType) != 0 && omInvCBOR(rawMap)
 //@   ensures[inv] omInvCBOR(rawMap)
 //@   ensures[keys-array] refOf(rawMap.Keys) == refOf(old(rawMap.Keys)) || fresh(rawMap.Keys)
@@ -405,7 +405,7 @@ package encoding
 //@   loop 2 invariant (refOf(rawMap.Keys) == refOf(old(rawMap.Keys)) || fresh(rawMap.Keys))
 
 //@ func encoding.doSerializeStructToJSON
-//@   property C05 C06 C15
+//@   property C05 C06 C15 C12
 //@   requires rawMap != nil && dynType(structType) != 0 && omInvJSON(rawMap)
 //@   ensures[inv] omInvJSON(rawMap)
 //@   ensures[keys-array] refOf(rawMap.Keys) == refOf(old(rawMap.Keys)) || fresh(rawMap.Keys)
